@@ -68,3 +68,22 @@ package tx_pool
 //@   ensures [nonceNotStale] err == nil ==> state.stNonce(pool.currentState, from) <= types.txNonce(tx)
 //@   ensures [affordable] err == nil ==> state.stBal(pool.currentState, from) >= types.txCost(tx)
 //@   ensures [paysIntrinsicGas] err == nil ==> types.txGas(tx) >= intrGas
+
+// ---------------------------------------------------------------- C17: stale views and eviction
+// Verified aspect of Put: storing a transaction invalidates the cached sorted view, for a new nonce and
+// for a replacement alike (otherwise Flatten keeps offering the replaced transaction).
+//@ aspect func (m *txSortedMap) Put(tx *types.Transaction)
+//@   for C17
+//@   requires m != nil && tx != nil
+//@   modifies *
+//@   ensures [cachedViewInvalidated] len(m.cache) == 0 && cap(m.cache) == 0
+//@   ensures [stored] has(m.items, types.txNonce(tx)) && m.items[types.txNonce(tx)] == tx
+
+// Discard pops price-ordered REMOTE transactions; an entry is stale (and skipped) exactly when its hash
+// is no longer in the remote set — transactions migrated to the local set are never eviction victims.
+//@ trusted func (t *txLookup) GetRemote(hash common.Hash) (r *types.Transaction)
+//@ func (l *txPricedList) Discard(slots int, force bool) (drops types.Transactions, ok bool)
+//@   for C17
+//@   requires l != nil
+//@   modifies *
+//@   atcall txLookup.GetRemote requires [stalenessAgainstTheRemoteSet] t == l.all && hash == types.txHashOf(tx)
